@@ -283,7 +283,8 @@ theorem sweepWith_safe {fin : St → Addr → St} (hfin : FinOK fin) {c : Cfg} (
     exact ⟨e, he.1, he.2, rfl⟩
   generalize hs1 : ({ s with reg := s.reg.filter (fun e => !swept marks e),
                              pending := (pendingOf s marks order).map some,
-                             mitems := threshold (s.reg.filter (fun e => !swept marks e)).length } : St) = s1
+                             mitems := threshold (s.reg.filter (fun e => !swept marks e)).length,
+                             marked := [] } : St) = s1
   have hreg1 : s1.reg = s.reg.filter (fun e => !swept marks e) := by rw [← hs1]
   have hpen1 : s1.pending = (pendingOf s marks order).map some := by rw [← hs1]
   have hsub : ∀ x, Tracked s1 x → Tracked s x := by
@@ -342,7 +343,8 @@ theorem gcSet_safe {sw : St → List Addr → List Addr → St} (hsw : SweepOK s
     have heq : gcSet sw c s a root marks order =
         if (decide (({ s with reg := s.reg ++ [⟨a, root⟩] } : St).reg.length > s.mitems) &&
             !(c.setGuardsSweep && !s.pending.isEmpty)) = true
-        then sw { s with reg := s.reg ++ [⟨a, root⟩] } marks order else { s with reg := s.reg ++ [⟨a, root⟩] } := by
+        then sw { s with reg := s.reg ++ [⟨a, root⟩] } (markBits c { s with reg := s.reg ++ [⟨a, root⟩] } marks) order
+        else { s with reg := s.reg ++ [⟨a, root⟩] } := by
       unfold gcSet
       have hnr : (!s.running) = false := by rw [hr]; rfl
       rw [hnr]; rfl
@@ -388,7 +390,7 @@ theorem gcSet_safe {sw : St → List Addr → List Addr → St} (hsw : SweepOK s
         · exact Or.inr rfl
       · exact Or.inl (Or.inr ((hk x).1 hx))
     split
-    · obtain ⟨E, w2⟩ := hsw s1 marks order hsafe1
+    · obtain ⟨E, w2⟩ := hsw s1 (markBits c s1 marks) order hsafe1
       exact ⟨[] ++ E, w1.trans (w2.weaken (fun x hx => absurd hx id))⟩
     · exact ⟨[], w1⟩
   · have heq : gcSet sw c s a root marks order = s := by
@@ -511,8 +513,21 @@ theorem finalise_safe {c : Cfg} (hc1 : c.remFinalisesPending = true) (hc2 : c.sw
     obtain ⟨E2, w2⟩ := fold_safe (f := fun st x => gcRem (finalise f c) c st x)
       (fun st x hst => gcRem_safe ih hc1 st x hst) (s.ownsOf a) _ w1.safe
     have w := w1.trans (w2.weaken (B := fun x => x ∈ (s.dallocOf a).map (·.addr)) (fun x hx => absurd hx id))
-    generalize ht3 : (s.ownsOf a).foldl (fun st x => gcRem (finalise f c) c st x)
-      ((s.dallocOf a).foldl (fun st d => gcSet (sweepWith (finalise f c) c) c st d.addr false d.marks d.order) s1) = t3 at w
+    generalize ht3' : (s.ownsOf a).foldl (fun st x => gcRem (finalise f c) c st x)
+      ((s.dallocOf a).foldl (fun st d => gcSet (sweepWith (finalise f c) c) c st d.addr false d.marks d.order) s1) = t3' at w
+    -- the destructor's `del(NULL)`, if it issues one: touches `mitems` (and `ub`) only
+    have wn : Work (fun x => x ∈ (s.dallocOf a).map (·.addr)) t3' (if s.nulldel.contains a then gcRemNull c t3' else t3') [] := by
+      by_cases hn : s.nulldel.contains a = true
+      · rw [if_pos hn]
+        obtain ⟨h1, h2, h3, h4, h5, h6, _⟩ := gcRemNull_fields c t3'
+        have hra : (gcRemNull c t3').regAddrs = t3'.regAddrs := by unfold St.regAddrs; rw [h1]
+        exact Work.of_sub w.safe h5 h6 h3 h4 (fun x hx => (Tracked.congr h1 h2).1 hx)
+          (by intro x hx; rw [h2] at hx; rw [hra]; exact w.safe.disj x hx) (by rw [hra]; exact w.safe.nodup)
+      · rw [if_neg hn]; exact Work.refl w.safe
+    have w' := w.trans wn
+    rw [List.append_nil] at w'
+    generalize ht3 : (if s.nulldel.contains a then gcRemNull c t3' else t3') = t3 at w'
+    have w := w'
     -- nothing potential at the end is `a`
     have hkidpot : ∀ x, x ∈ (s.dallocOf a).map (·.addr) → Pot s x ∧ x ≠ a := by
       intro x hx
@@ -529,7 +544,7 @@ theorem finalise_safe {c : Cfg} (hc1 : c.remFinalisesPending = true) (hc2 : c.sw
       exact ⟨fun e => hnp (e ▸ hpot3 y hy), Clean.nil y⟩
     obtain ⟨hsafe4, hpot4⟩ := w.safe.log_append [Ev.free a] hE3
     have hres : finalise (f + 1) c s a = { t3 with log := t3.log ++ [Ev.free a] } := by
-      rw [← ht3, ← hs1]; rfl
+      rw [← ht3, ← ht3', ← hs1]; rfl
     rw [hres]
     refine ⟨Ev.fin a :: ((E1 ++ E2) ++ [Ev.free a]), ?_, ?_, ?_, ?_, ?_, ?_, ?_, hsafe4⟩
     · show t3.log ++ [Ev.free a] = _
@@ -586,12 +601,12 @@ theorem step_safe {c : Cfg} (hc1 : c.remFinalisesPending = true) (hc2 : c.sweepN
     (∀ marks order, ∃ E, Work (fun _ => False) s (step c s (.collect marks order)) E) ∧
     (∀ order, ∃ E, Work (fun _ => False) s (step c s (.teardown order)) E) ∧
     (∀ a k, k ≠ Kind.raw → ∃ E, Work (fun _ => False) s (step c s (.del a k)) E) := by
-  refine ⟨fun marks order => sweep_safe hc1 hc2 s marks order h, ?_, ?_⟩
+  refine ⟨fun marks order => sweep_safe hc1 hc2 s (markBits c s marks) order h, ?_, ?_⟩
   · intro order
-    show ∃ E, Work _ s (if c.teardownRepeats then sweepAll c (fuelFor s) s order else sweep c s [] order) E
+    show ∃ E, Work _ s (if c.teardownRepeats then sweepAll c (fuelFor s) s order else sweep c s (teardownBits c s) order) E
     split
     · exact sweepAll_safe hc1 hc2 order _ s h
-    · exact sweep_safe hc1 hc2 s [] order h
+    · exact sweep_safe hc1 hc2 s (teardownBits c s) order h
   · intro a k hk
     cases k with
     | raw => exact absurd rfl hk
@@ -743,6 +758,11 @@ theorem sinv_step {g : Ghost} {s : St} (h : SInv g s) (op : Op) (hok : OpOk g op
   | stop => exact ⟨h.congr rfl rfl rfl rfl, hnil rfl⟩
   | start => exact ⟨h.congr rfl rfl rfl rfl, hnil rfl⟩
   | own a owned => exact ⟨h.congr rfl rfl rfl rfl, hnil rfl⟩
+  | markAbort marks => exact ⟨h.congr rfl rfl rfl rfl, hnil rfl⟩
+  | nulldel a => exact ⟨h.congr rfl rfl rfl rfl, hnil rfl⟩
+  | delNull =>
+    obtain ⟨h1, h2, _, _, h5, h6, _⟩ := gcRemNull_fields Cfg.current s
+    exact ⟨h.congr h1 h2 h5 h6, hnil h5⟩
   | collect marks order => obtain ⟨E, w⟩ := hcol marks order; exact hsame w
   | teardown order => obtain ⟨E, w⟩ := htear order; exact hsame w
   | dealloc a k => exact h.finalise_raw a hok
